@@ -10,6 +10,8 @@ G3w == <<[a |-> 1, p |-> 1], [a |-> 2, p |-> 2], [a |-> 3, p |-> 1]>>
 \* the round-skip divergence (TMConsensusHeightsSys!CorridorSkip)
 G572 == <<[a |-> 1, p |-> 5], [a |-> 2, p |-> 7], [a |-> 3, p |-> 2]>>
 MenuSkip == {<< >>, <<[a |-> 1, p |-> 11]>>, <<[a |-> 1, p |-> 1]>>}
+\* none / remove the node under test (it goes on following the chain without signing)
+MenuRm == {<< >>, <<[a |-> 1, p |-> 0]>>}
 MenuNone == {<< >>}
 \* none / add v3 / lower v1
 MenuQ == {<< >>, <<[a |-> 4, p |-> 1]>>, <<[a |-> 2, p |-> 1]>>}
